@@ -1,7 +1,46 @@
-(** C15 (stub, extended below). *)
+(** C15: a failed filter refresh changes nothing; a successful one stores a
+    stable form.  Only statements here; proofs live in Proofs/RuleListParser.v
+    and Proofs/Refresh.v.  The parser theorems hold for every checksum
+    function [crc] (hash/crc32 in the code). *)
 From Coq Require Import NArith List.
 From AGH Require Import Base.Run Model.RuleListParser Proofs.RuleListParser.
+Import ListNotations.
+Local Open Scope N_scope.
 
-Theorem C15_stub : output p_init = [].
-Proof. exact output_nil. Qed.
-Print Assumptions C15_stub.
+(** The stored form is a fixed point: whatever text (and however it was cut
+    into reads) parsed successfully into [y = output st], parsing [y] succeeds,
+    writes [y] again, with the same rule count, checksum and byte count. *)
+Theorem C15_normal_form_fixed_point : forall crc x read_err st,
+  parse crc x read_err = (st, None) ->
+  exists st',
+    parse crc (output st) false = (st', None) /\
+    output st' = output st /\
+    p_count st' = p_count st /\ p_sum st' = p_sum st /\ p_written st' = p_written st.
+Proof. exact parse_fixed_point. Qed.
+Print Assumptions C15_normal_form_fixed_point.
+
+(** Shape of the stored form: newline-terminated lines, none blank, none a
+    comment, none with a leading or trailing white-space rune, none with a
+    newline or a binary byte inside; count, checksum and size describe exactly
+    these lines. *)
+Theorem C15_output_shape : forall crc x read_err st,
+  parse crc x read_err = (st, None) ->
+  exists ws, output st = flat_map (fun w => w ++ [10]) ws /\ Forall line_shape ws /\
+             p_count st = cntN ws /\ p_sum st = fold_left crc ws 0 /\
+             p_written st = lenN (output st).
+Proof. exact parse_output_shape. Qed.
+Print Assumptions C15_output_shape.
+
+(** A reader that ends in an error never yields a successful parse. *)
+Theorem C15_read_error_is_error : forall crc x st e,
+  parse crc x true = (st, e) -> e <> None.
+Proof. exact parse_read_error. Qed.
+Print Assumptions C15_read_error_is_error.
+
+(** Non-vacuity: a text with a title, comments, CRLF, Unicode spaces, an
+    inner CR and an unterminated last line parses, and is changed by it. *)
+Example C15_premises_satisfiable :
+  let '(st, e) := parse crc32_update Examples.text false in
+  e = None /\ output st = Examples.stored /\ p_count st = 3 /\ p_title st = [84] /\
+  output st <> Examples.text.
+Proof. exact parse_example. Qed.
